@@ -525,14 +525,3 @@ package gozxing
 //@   loop 4: invariant j == 1 && i == 0 && len(b.bits) == 1 && b.bits[0] == reverse32(old(b.bits[0])) >> uint(32 - b.width % 32) && height == 1 && rowSize == 1 && shift == uint(b.width % 32) && shift != 0
 //@   loop 5: invariant -1 <= rangeindex && rangeindex <= 0 && len(b.bits) == 1 && (rangeindex == -1 ==> b.bits[0] == old(b.bits[0])) && (rangeindex == 0 ==> b.bits[0] == reverse32(old(b.bits[0])))
 
-// NewRGBLuminanceSource (C17): every luminance byte is the green-favouring average (R + 2G + B) / 4 of its 0xRRGGBB pixel
-//@ func NewRGBLuminanceSource(width int, height int, pixels []int) (r LuminanceSource)
-//@   property C17
-//@   mode bv
-//@   requires 0 <= width && width <= 30000 && 0 <= height && height <= 30000 && len(pixels) >= width * height
-//@   internal forall k int :: 0 <= k && k < width * height ==> int(luminances[k]) == (((pixels[k] >> 16) & 255) + 2 * ((pixels[k] >> 8) & 255) + (pixels[k] & 255)) / 4
-//@   internal len(luminances) == width * height
-//@   loop 0: invariant 0 <= offset && offset <= size && size == width * height && len(luminances) == size && fresh(luminances)
-//@   loop 0: invariant forall k int :: 0 <= k && k < offset ==> int(luminances[k]) == (((pixels[k] >> 16) & 255) + 2 * ((pixels[k] >> 8) & 255) + (pixels[k] & 255)) / 4
-//@   loop 0: decreases size - offset
-
